@@ -1,7 +1,7 @@
 //! Slots of the L1 simulation: every FFI-safe owning type of `diplomat-runtime` wrapped behind one
 //! object-safe interface, instantiated over the payload kinds of `payload.rs`.
 
-use crate::payload::{Heavy, Light, Pl, Wrapped};
+use crate::payload::{Heavy, Light, Pl, Wrapped, ZTok};
 use core::ffi::c_void;
 use diplomat_runtime::{DiplomatCallback, DiplomatOption, DiplomatOwnedSlice, DiplomatOwnedUTF8StrSlice, DiplomatResult};
 use simcore::ledger;
@@ -24,6 +24,8 @@ pub enum ET {
     U16,
     Byte,
     Unit,
+    /// zero-sized element *with* drop glue
+    Zst,
 }
 
 #[derive(Clone, Copy, Debug, PartialEq, Eq, PartialOrd, Ord)]
@@ -145,6 +147,9 @@ impl HasET for u8 {
 }
 impl HasET for () {
     const ET: ET = ET::Unit;
+}
+impl HasET for ZTok {
+    const ET: ET = ET::Zst;
 }
 
 // ---- DiplomatResult<P, Q> / Result<P, Q> -------------------------------------------------------
@@ -643,7 +648,7 @@ pub fn make_slot(ty: Ty, arm: bool, n: usize, build: Build) -> Option<Box<dyn Sl
             if build != Build::Rust && !ffi {
                 return None;
             }
-            if build == Build::CAlloc && (n == 0 || matches!(e, ET::Heavy | ET::Light | ET::Unit)) {
+            if build == Build::CAlloc && (n == 0 || matches!(e, ET::Heavy | ET::Light | ET::Unit | ET::Zst)) {
                 return None;
             }
             match e {
@@ -653,6 +658,7 @@ pub fn make_slot(ty: Ty, arm: bool, n: usize, build: Build) -> Option<Box<dyn Sl
                 ET::U16 => make_slice::<u16>(ffi, n, build),
                 ET::Byte => make_slice::<u8>(ffi, n, build),
                 ET::Unit => make_slice::<()>(ffi, n, build),
+                ET::Zst => make_slice::<ZTok>(ffi, n, build),
             }
         }
         Ty::OStr8 | Ty::BStr => {
